@@ -65,6 +65,29 @@ func plan(seed int64, tier string) []vrt.Case {
 		sc := scenario{Op: op, Pre: 0, Size: "small", Seed: seed}
 		add("par-"+sc.String(), params{Kind: "partial", Sc: sc, Set: "quick"})
 	}
+	// other ways the message the operation works on may be stored: behind a symbolic link, under a
+	// differently-cased extension
+	for _, v := range []struct {
+		name string
+		ops  []string
+	}{
+		{"symlink", []string{"ProcessInbound-dup", "ProcessInbound-replace", "AddOut-replace", "SetSent", "SetUnread-true", "SetUnread-false"}},
+		{"upperext", []string{"ProcessInbound-dup", "ProcessInbound-replace", "AddOut-replace"}},
+	} {
+		for _, op := range v.ops {
+			for _, sz := range sizeNames {
+				if tier != "thorough" && sz == "large" {
+					continue
+				}
+				sc := scenario{Op: op, Pre: 2, Size: sz, Seed: seed, Var: v.name}
+				add("bnd-"+sc.String(), params{Kind: "boundaries", Sc: sc})
+				if hasWrite(op) && sz != "small" {
+					add("par-"+sc.String(), params{Kind: "partial", Sc: sc, Set: "quick"})
+					add("err-"+sc.String(), params{Kind: "errpath", Sc: sc})
+				}
+			}
+		}
+	}
 	return cs
 }
 
